@@ -3,4 +3,5 @@ From RB Require Import Base.Prelude Names.Str Names.Spec Names.Model Names.Wire.
 Extraction Language OCaml.
 Set Extraction Output Directory ".".
 Extraction "gen_model.ml" validate_object_path validate_interface validate_errorname validate_busname
-  validate_membername objectpath_new marshal_header_names marshal_objectpath names_of utf8_bytes.
+  validate_membername objectpath_new marshal_header_names marshal_objectpath names_of utf8_bytes
+  objectpath_try_from_str objectpath_try_from_string objectpath_to_owned marshal_objectpath_typed.
